@@ -180,8 +180,8 @@ Proof. apply act_hasbuf. Qed.
 Example ex_run :
   let s := exec (init true)
      [Arrive 1; Arrive 2; Arrive 3; Deliver [Stash]; Deliver [Stash]; Deliver [UnstashAll]; Arrive 4;
-      Deliver []; Deliver [Stash]; Deliver []; Deliver [Unstash]; Deliver []] in
-  ids (delivered s) = [1; 2; 3; 1; 2; 4; 2] /\ stashed s = [1; 2; 2] /\ unstashed s = [1; 2; 2] /\ box s = [] /\ mbox s = [].
+      Deliver []; Deliver [Stash]; Deliver []; Arrive 5; Deliver [Unstash]; Deliver []] in
+  ids (delivered s) = [1; 2; 3; 1; 2; 4; 5; 2] /\ stashed s = [1; 2; 2] /\ unstashed s = [1; 2; 2] /\ box s = [] /\ mbox s = [].
 Proof. vm_compute. auto. Qed.
 
 Example ex_nobuf :
